@@ -374,11 +374,11 @@ func scenarios(th bool) []scenario {
 	wA, wB := op{"write", "A"}, op{"write", "BBBBBB"}
 	a1, a2 := op{"append", "+t1"}, op{"append", "+t2"}
 	sh := op{"shrink", ""}
-	b3 := 2
+	b3, b22 := 3, 4
 	if th {
-		b3 = 3
+		b3, b22 = 4, -1
 	}
-	return []scenario{
+	scs := []scenario{
 		{"R||W(short)", "v0v0", [][]op{{rd}, {wA}}, -1},
 		{"R||W(long)", "v0v0", [][]op{{rd}, {wB}}, -1},
 		{"W||W", "v0v0", [][]op{{wA}, {wB}}, -1},
@@ -386,9 +386,9 @@ func scenarios(th bool) []scenario {
 		{"append||append", "v0v0", [][]op{{a1}, {a2}}, -1},
 		{"shrink||R", "v0v0", [][]op{{sh}, {rd}}, -1},
 		{"shrink||append", "v0v0", [][]op{{sh}, {a1}}, -1},
-		{"W;R||W;R", "v0v0", [][]op{{wA, rd}, {wB, rd}}, 3},
+		{"W;R||W;R", "v0v0", [][]op{{wA, rd}, {wB, rd}}, b22},
 		{"R;R||W", "v0v0", [][]op{{rd, rd}, {wA}}, -1},
-		{"append;R||shrink", "v0v0", [][]op{{a1, rd}, {sh}}, 3},
+		{"append;R||shrink", "v0v0", [][]op{{a1, rd}, {sh}}, b22},
 		{"W||W||R", "v0v0", [][]op{{wA}, {wB}, {rd}}, b3},
 		{"append||W||R", "v0v0", [][]op{{a1}, {wA}, {rd}}, b3},
 		{"append||append||R", "v0v0", [][]op{{a1}, {a2}, {rd}}, b3},
@@ -399,6 +399,14 @@ func scenarios(th bool) []scenario {
 		{"creation append||append", absent, [][]op{{a1}, {a2}}, -1},
 		{"creation W||W", absent, [][]op{{wA}, {wB}}, -1},
 	}
+	if th {
+		scs = append(scs,
+			scenario{"append;append||append;R", "v0v0", [][]op{{a1, a2}, {op{"append", "+t3"}, rd}}, 4},
+			scenario{"W;shrink||R;R", "v0v0", [][]op{{wB, sh}, {rd, rd}}, -1},
+			scenario{"W||append||shrink||R", "v0v0", [][]op{{wA}, {a1}, {sh}, {rd}}, 2},
+		)
+	}
+	return scs
 }
 
 // ---------- fault part ----------
